@@ -634,6 +634,37 @@ def _cost():
                              meta=dict(op=op, kind=kind, n=n, tables=f"identity, key {k}"), covers_required=False,
                              cost=2000 if dq else 600, mem=16 if dq else 8)
 
+    # the bulk operations that rebuild: O(n) = one sift-down per internal node
+    BULK = ["from_vec", "from_iter", "retain", "retain_mut", "convert", "append", "iter_mut"]
+    for kind in ("pq", "dq"):
+        ty = KINDS[kind]["ty"]
+        dq = kind == "dq"
+        for wi, w in enumerate(BULK):
+            for n in (1, 2, 3, 4, 5, 6):
+                # cost of the conversion is that of the OTHER kind's rebuild
+                heavy = dq != (w == "convert")
+                t = tq(n, 3 if heavy else 4, 5 if heavy else 6)
+                if w in ("retain", "from_iter") and t == QUICK and n < 3:
+                    t = THOROUGH
+                if t is None:
+                    continue
+                inst(f"cost_{kind}_bulk_{w}_n{n}", f"cost::cost_bulk::<{ty}, {n}>({wi}, Tables::Any)", kind, n + 1,
+                     {"C05": t}, "COST", meta=dict(op=w, kind=kind, n=n, tables="any", budget="Floyd: sum of sift-down budgets"),
+                     covers_required=False, cost=(n + 1) * (30 if heavy else 8))
+        # the size at which a rebuild by repeated insertion (n log n) leaves the Floyd budget
+        inst(f"cost_{kind}_bulk_iter_mut_n16_id", f"cost::cost_bulk::<{ty}, 16>(6, Tables::Identity)", kind, 16,
+             {"C05": THOROUGH}, "COST", meta=dict(op="iter_mut", kind=kind, n=16, tables="identity"),
+             covers_required=False, cost=2500 if dq else 800, mem=16 if dq else 8)
+    # position split on the min-max heap at the sizes where a rebuild leaves the single-path budget
+    for n, t, keys in ((6, QUICK, (0, 1, 3, 5)), (7, QUICK, (2, 6)), (7, THOROUGH, (0, 1, 3, 4, 5))):
+        for op, opi in (("remove", 3), ("change", 1)):
+            for k in keys:
+                if op == "change" and t == QUICK and k not in (1, 5, 6):
+                    continue
+                inst(f"cost_dq_{op}_n{n}_idk{k}", f"cost::cost::<DqI, {n}>({opi}, Tables::IdentityKey({k}))",
+                     "dq", n, {"C05": t}, "COST", meta=dict(op=op, kind="dq", n=n, tables=f"identity, key {k}"),
+                     covers_required=False, cost=45 * n, mem=6)
+
 
 _cost()
 
@@ -672,6 +703,60 @@ def _crash():
         inst(f"crash_dq_{op}_n{n}_idk{k}", f"crash::crash::<DqI, {n}>({opi}, Tables::IdentityKey({k}))", "dq", n + grow,
              {"C10": t}, "CRASH", meta=dict(op=op, kind="dq", n=n, pre="cs", tables=f"identity, key {k}"),
              covers_required=False, cost=400, mem=8)
+
+    # ---- crash points inside the bulk operations (feeding iterator, retain predicate,
+    # ---- Eq/Hash during append, comparisons of the final rebuild)
+    for kind in ("pq", "dq"):
+        ty = KINDS[kind]["ty"]
+        dq = kind == "dq"
+        # extend, push strategy
+        for n in (0, 1, 2, 3, 4):
+            a, x = n, 0
+            pats = [("ab", [a, a + 1])] + ([("xa", [x, a]), ("ax", [a, x])] if n > 0 else [])
+            for tag, keys in pats:
+                t = tq(n, 1 if dq else 3, 3 if dq else 4)
+                if tag == "ax":
+                    t = THOROUGH if t else None
+                if t is None:
+                    continue
+                inst(f"crash_{kind}_extend_n{n}_m2_{tag}_none",
+                     f"crash::crash_extend::<{ty}, {n}, 2, {seq_of(keys)}>(Tables::Any, bulk::H_NONE)", kind, n + 2,
+                     {"C10": t}, "CRASH", meta=dict(op="extend (push strategy)", kind=kind, n=n, m=2, keys=keys, pre="cs",
+                                                     callbacks="feeding iterator, Ord, Eq, Hash"),
+                     covers_required=False, cost=(n + 2) * (60 if dq else 10))
+        # extend, rebuild strategy: receiver of 8, identity tables, hint far above
+        for tag, keys in (("ab", [8, 9]), ("xa", [3, 8])):
+            t = QUICK if (tag == "ab" and not dq) else THOROUGH
+            inst(f"crash_{kind}_extend_n8_m2_{tag}_far_rebuild",
+                 f"crash::crash_extend::<{ty}, 8, 2, {seq_of(keys)}>(Tables::Identity, bulk::H_FAR)", kind, 10,
+                 {"C10": t}, "CRASH", meta=dict(op="extend (rebuild strategy)", kind=kind, n=8, m=2, keys=keys, pre="cs",
+                                                 tables="identity", callbacks="feeding iterator, Ord, Eq, Hash"),
+                 covers_required=False, cost=900 if dq else 200, mem=10)
+        # retain / retain_mut: concrete verdict patterns
+        for n in (1, 2, 3, 4):
+            for pat in sorted({(1 << n) - 1, (1 << n) - 2, 1, 0}):
+                for mutable in (True, False):
+                    t = tq(n, 2 if dq else 3, 3 if dq else 4)
+                    if not mutable and pat != (1 << n) - 2:
+                        t = THOROUGH if t else None
+                    if t is None:
+                        continue
+                    nm = "retain_mut" if mutable else "retain"
+                    inst(f"crash_{kind}_{nm}_n{n}_p{pat:0{n}b}",
+                         f"crash::crash_retain::<{ty}, {n}, {pat}>(Tables::Any, {B[mutable]})", kind, n,
+                         {"C10": t}, "CRASH", meta=dict(op=nm, kind=kind, n=n, verdicts=f"{pat:0{n}b}", pre="cs",
+                                                         callbacks="predicate (tables only: the map is mid-retain), Ord"),
+                         covers_required=False, cost=(n + 1) * (40 if dq else 8))
+        # append
+        for n, m, keys, t in ((2, 2, [0, 2], QUICK), (1, 2, [0, 1], QUICK), (2, 1, [5], THOROUGH), (3, 2, [1, 3], THOROUGH),
+                              (0, 2, [0, 1], THOROUGH)):
+            if dq and n + m > 3 and t == QUICK:
+                t = THOROUGH
+            inst(f"crash_{kind}_append_n{n}_m{m}",
+                 f"crash::crash_append::<{ty}, {n}, {m}, {seq_of(keys)}>(Tables::Any)", kind, n + m,
+                 {"C10": t}, "CRASH", meta=dict(op="append", kind=kind, n=n, m=m, other_keys=keys, pre="cs",
+                                                 callbacks="Eq, Hash, Ord; both queues probed"),
+                 covers_required=False, cost=(n + m) * (40 if dq else 8))
 
 
 _crash()
